@@ -200,7 +200,7 @@ func Active() bool { return w != nil }
 // Watchdog limits (see Run) and what to do when they are exceeded.
 var (
 	StuckAfter        = stuckAfterEnv()
-	MemLimit   uint64 = 6 << 30
+	MemLimit   uint64 = 3 << 30
 	OnStuck           = func(reason string, choices []int) {
 		fmt.Fprintf(os.Stderr, "vrt: %s; choices so far %v\n", reason, choices)
 	}
